@@ -213,73 +213,187 @@ func checkC08(P *Program, r *Result, tier string) {
 	}
 
 	// ---------- DEPTH ----------
-	recs := 0
-	for _, fn := range scope {
-		sc := selfCalls(fn)
-		if len(sc) == 0 {
-			continue
-		}
-		recs++
-		fa := run.A.fa(fn)
-		// the depth parameter: the int parameter every self call passes as param − 1
-		k := -1
-		for i, p := range fn.Params {
-			if b, ok := p.Type().Underlying().(*types.Basic); ok && b.Kind() == types.Int {
-				k = i
+	// A recursive skipper = a function of the scope that lies on a call cycle and answers depth 0 with DEPTH_LIMIT.
+	// Its cycle (the strongly connected component in the repository call graph) may contain extracted helpers.
+	callees := func(f *ssa.Function) []*ssa.Function {
+		var out []*ssa.Function
+		for _, c := range callsIn(f) {
+			if cal := c.Common().StaticCallee(); cal != nil && inRepo(cal) && cal.Blocks != nil {
+				out = append(out, cal)
 			}
 		}
-		if k < 0 {
-			r.add("DEPTH", shortName(fn), "param", "recursive skipper has a depth parameter", P.pos(fn.Pos()), false, "no int parameter")
-			continue
+		return out
+	}
+	reach := func(from *ssa.Function) map[*ssa.Function]bool {
+		seen := map[*ssa.Function]bool{}
+		var walk func(f *ssa.Function)
+		walk = func(f *ssa.Function) {
+			for _, g := range callees(f) {
+				if !seen[g] {
+					seen[g] = true
+					walk(g)
+				}
+			}
 		}
-		par := fa.expand(fn.Params[k])
-		for _, c := range sc {
-			arg := fa.expand(c.Common().Args[k])
-			dec := arg.equal(par.addConst(-1))
-			r.add("DEPTH", shortName(fn), "call", "recursive call passes depth − 1", P.pos(instrPos(c)), dec, "argument is "+run.A.linString(arg))
-			pos := fa.prove(ineqGE(par, linConst(1)), c.Block(), rootCtx.with([]*Lin{ineqGE(par, linConst(0))}, nil))
-			r.add("DEPTH", shortName(fn), "call", "recursion only with depth ≥ 1 (rank decreases, stays ≥ 0)", P.pos(instrPos(c)), pos, "")
-		}
-		// depth == 0 ⇒ DEPTH_LIMIT
-		okLimit := false
+		walk(from)
+		return seen
+	}
+	limitParam := func(fn *ssa.Function) (int, *ssa.BasicBlock) {
+		// the int parameter whose comparison with 0 returns the DEPTH_LIMIT exception
 		for _, b := range fn.Blocks {
 			iff, ok := b.Instrs[len(b.Instrs)-1].(*ssa.If)
 			if !ok {
 				continue
 			}
 			bo, ok := iff.Cond.(*ssa.BinOp)
-			if !ok || bo.Op != token.EQL || bo.X != ssa.Value(fn.Params[k]) {
+			if !ok || (bo.Op != token.EQL && bo.Op != token.LEQ) {
 				continue
 			}
 			if c, ok := bo.Y.(*ssa.Const); !ok || c.Value == nil || c.Int64() != 0 {
 				continue
 			}
-			tb := b.Succs[0]
-			if ret, ok := tb.Instrs[len(tb.Instrs)-1].(*ssa.Return); ok {
-				if t, ok := exceptionTypeOf(P, ret.Results[len(ret.Results)-1]); ok && t == 6 {
-					okLimit = true
-					for _, c := range sc {
-						if !edgeDominates(b, b.Succs[1], c.Block()) {
-							okLimit = false
+			for i, p := range fn.Params {
+				if bo.X != ssa.Value(p) {
+					continue
+				}
+				tb := b.Succs[0]
+				if ret, ok := tb.Instrs[len(tb.Instrs)-1].(*ssa.Return); ok {
+					if t, ok := exceptionTypeOf(P, ret.Results[len(ret.Results)-1]); ok && t == 6 {
+						return i, b
+					}
+				}
+			}
+		}
+		return -1, nil
+	}
+	recs := 0
+	for _, fn := range scope {
+		fromFn := reach(fn)
+		if !fromFn[fn] {
+			continue // not on a cycle
+		}
+		k, guardBlk := limitParam(fn)
+		if k < 0 {
+			// a helper on some skipper's cycle is handled with that skipper; a recursive function without the limit test is a violation
+			onOther := false
+			for g := range fromFn {
+				if g != fn && reach(g)[fn] {
+					if kk, _ := limitParam(g); kk >= 0 {
+						onOther = true
+					}
+				}
+			}
+			if !onOther {
+				r.add("DEPTH", shortName(fn), "entry", "depth 0 returns the DEPTH_LIMIT protocol exception before anything is parsed", P.pos(fn.Pos()), false, "recursive function without a depth-limit test")
+			}
+			continue
+		}
+		recs++
+		// the cycle and the depth parameter of every member
+		scc := map[*ssa.Function]bool{fn: true}
+		for g := range fromFn {
+			if reach(g)[fn] {
+				scc[g] = true
+			}
+		}
+		dpar := map[*ssa.Function]int{fn: k}
+		for changed := true; changed; {
+			changed = false
+			for f := range scc {
+				if _, has := dpar[f]; has {
+					continue
+				}
+				faF := run.A.fa(f)
+				for _, c := range callsIn(f) {
+					g := c.Common().StaticCallee()
+					gk, known := dpar[g]
+					if !known || !scc[g] {
+						continue
+					}
+					arg := faF.expand(c.Common().Args[gk])
+					for i, p := range f.Params {
+						if isInteger(p.Type()) {
+							if d := arg.sub(faF.expand(p)); d.isConst() {
+								dpar[f] = i
+								changed = true
+							}
 						}
 					}
 				}
+			}
+		}
+		zeroEdges := map[*ssa.Function][]*ssa.Function{}
+		for f := range scc {
+			fk, has := dpar[f]
+			if !has {
+				r.add("DEPTH", shortName(f), "param", "every function on the recursion cycle carries the depth", P.pos(f.Pos()), false, "no parameter of "+f.Name()+" flows into the depth of the next call")
+				continue
+			}
+			faF := run.A.fa(f)
+			par := faF.expand(f.Params[fk])
+			for _, c := range callsIn(f) {
+				g := c.Common().StaticCallee()
+				if !scc[g] {
+					continue
+				}
+				cc := c.(*ssa.Call)
+				arg := faF.expand(c.Common().Args[dpar[g]])
+				d := arg.sub(par)
+				okEdge := d.isConst() && d.C.Sign() <= 0
+				r.add("DEPTH", shortName(f), "call", "a call on the recursion cycle passes its own depth or less", P.pos(instrPos(cc)), okEdge, "argument is "+run.A.linString(arg))
+				if okEdge && d.C.Sign() == 0 {
+					zeroEdges[f] = append(zeroEdges[f], g)
+				}
+				if okEdge && d.C.Sign() < 0 {
+					pos := faF.prove(ineqGE(par, linConst(1)), cc.Block(), rootCtx.with([]*Lin{ineqGE(par, linConst(0))}, nil))
+					r.add("DEPTH", shortName(f), "call", "the depth is decremented only when it is ≥ 1 (rank decreases, stays ≥ 0)", P.pos(instrPos(cc)), pos, "")
+				}
+			}
+		}
+		// every cycle contains a decrement: the calls that pass the depth unchanged form no cycle
+		cyc := false
+		var visit func(f *ssa.Function, stack map[*ssa.Function]bool)
+		visit = func(f *ssa.Function, stack map[*ssa.Function]bool) {
+			if stack[f] {
+				cyc = true
+				return
+			}
+			stack[f] = true
+			for _, g := range zeroEdges[f] {
+				visit(g, stack)
+			}
+			delete(stack, f)
+		}
+		for f := range scc {
+			visit(f, map[*ssa.Function]bool{})
+		}
+		r.add("DEPTH", shortName(fn), "cycle", "every recursion cycle decrements the depth", P.pos(fn.Pos()), !cyc, "")
+		// depth 0 ⇒ DEPTH_LIMIT before any call on the cycle
+		okLimit := true
+		for _, c := range callsIn(fn) {
+			if scc[c.Common().StaticCallee()] && !edgeDominates(guardBlk, guardBlk.Succs[1], c.(*ssa.Call).Block()) {
+				okLimit = false
 			}
 		}
 		r.add("DEPTH", shortName(fn), "entry", "depth 0 returns the DEPTH_LIMIT protocol exception before anything is parsed", P.pos(fn.Pos()), okLimit, "")
 		// external entries pass 64
 		ext := 0
 		for _, caller := range repoFuncs(P) {
-			if caller == fn {
+			if scc[caller] {
 				continue
 			}
 			for _, c := range callsIn(caller) {
-				if c.Common().StaticCallee() != fn {
+				g := c.Common().StaticCallee()
+				if !scc[g] {
 					continue
 				}
 				ext++
-				cst, ok := c.Common().Args[k].(*ssa.Const)
-				r.add("DEPTH", shortName(caller), "call", "entry into "+fn.Name()+" starts with the recursion limit 64", P.pos(instrPos(c.(ssa.Instruction))), ok && cst.Value != nil && cst.Int64() == 64, "")
+				gk, has := dpar[g]
+				if !has {
+					continue
+				}
+				cst, ok := c.Common().Args[gk].(*ssa.Const)
+				r.add("DEPTH", shortName(caller), "call", "entry into "+g.Name()+" starts with the recursion limit 64", P.pos(instrPos(c.(ssa.Instruction))), ok && cst.Value != nil && cst.Int64() == 64, "")
 			}
 		}
 		if ext == 0 {
